@@ -152,6 +152,14 @@ int main()
 			for (size_t i = 0; i < n; ++i) os << ull(b[i].h) << " " << b[i].id << " ";
 			printf("%s%s%s| %s\n", g_oob ? "OOB " : "", g_selfswap ? "SELFSWAP " : "", os.str().c_str(), trace_str().c_str());
 		}
+		else if (cmd == "GS")
+		{	// IsSorted / IsSortedPrehashed, result only (compared with the GENERATED pvIsSorted)
+			std::string var; size_t n; is >> var >> n; Arr a; a.read_pairs(is, n);
+			a.query = Item{ 0, 0, -1 }; a.arm(n); g_trace = false; g_coarse = (var == "P" || var == "H");
+			bool pre = (var == "p" || var == "P"); Item* b = a.base();
+			bool r = pre ? HashSorter::IsSortedPrehashed(b, n, HashIt{ a.hbase() }, EQ()) : HashSorter::IsSorted(b, n, HF(), EQ());
+			printf("%s%d\n", g_oob ? "OOB " : "", int(r));
+		}
 		else if (cmd == "IPF")
 		{	// the iterator -> hash adaptors: IterHashFunc (plain), IterPrehashFunc forward and reverse_iterator overloads.  IPF v n pairs i
 			std::string var; size_t n; is >> var >> n; Arr a; a.read_pairs(is, n); size_t i; is >> i;
